@@ -36,6 +36,8 @@ class Run:
         self.t0 = time.time()
         self.replay = json.load(open(self.args.replay)) if self.args.replay else None
         self.scope = ""
+        global CURRENT
+        CURRENT = self
         assert "/repo/" not in tskit.__file__ and "site-packages" not in tskit.__file__, tskit.__file__
 
     def budget(self, quick, thorough):
@@ -60,6 +62,27 @@ class Run:
                "seconds": round(time.time() - self.t0, 1), "tskit": tskit.__file__}
         print("RESULT " + json.dumps(out, default=str))
         sys.exit(0)
+
+
+CURRENT = None
+
+
+def run_main(main):
+    """entry point of every stand-in: an exception escaping the stand-in while it reads or compares what the library
+    returned for a generated input (e.g. an id in the result that is out of range) is a violation carrying the
+    traceback, not a crash of the checker"""
+    import traceback
+    try:
+        main()
+    except SystemExit:
+        raise
+    except BaseException as e:       # noqa
+        if CURRENT is None:
+            raise
+        CURRENT.violation("the library's results for a generated input can be read and compared (no exception escapes)",
+                          {"standin": CURRENT.name, "seed": CURRENT.seed, "evaluations_so_far": CURRENT.evaluations},
+                          "%s: %s\n%s" % (type(e).__name__, e, traceback.format_exc()[-2500:]), "no exception")
+        CURRENT.finish()
 
 
 def _j(x):
